@@ -301,6 +301,9 @@ struct Case {
     stepping_clients: Vec<usize>,
     worker_at_point: bool,
     client_job: Vec<String>,
+    sweeper_at_point: bool,
+    sweeps_before: u64,
+    last_snap: Option<Snapshot>,
 }
 
 impl Case {
@@ -333,20 +336,46 @@ impl Case {
         let consumed = vec![0; cfg.clients];
         let ncl = cfg.clients;
         let _ = ctl.take_oracle();
-        Case { name: name.to_string(), cfg, ctl, cache, clock, clients, acks: Vec::new(), consumed, index: 0, guards_held: 0, stepping_clients: Vec::new(), worker_at_point: false, client_job: vec![String::new(); ncl] }
+        Case { name: name.to_string(), cfg, ctl, cache, clock, clients, acks: Vec::new(), consumed, index: 0, guards_held: 0, stepping_clients: Vec::new(), worker_at_point: false, client_job: vec![String::new(); ncl], sweeper_at_point: false, sweeps_before: 0, last_snap: None }
     }
 
     /// does a thread in point-stepping mode stop at this schedule point (in this case's mode, for this job)?
     fn interesting(&self, label: &str, job: &str) -> bool {
         let window = matches!(label, "upsert.after_store_update" | "worker.put_ttl.after_store_insert" | "worker.drain.end");
         if window { return true; }
-        if self.cfg.points != "micro" { return false; }
+        if self.cfg.points == "probe" && matches!(label, "weight.update.mid" | "weight.delete.mid" | "sweep.entry") { return true; }
+        if self.cfg.points != "micro" && self.cfg.points != "probe" { return false; }
         match label {
             "call.entered" | "put.checked" | "delete.marked" | "read.hit" => true,
             "send.enter" => matches!(job, "put" | "put_w" | "put_ttl" | "put_w_ttl"),
             "worker.delete.after_store" | "worker.delete.after_weight" => true,
             l if l.starts_with("shutdown.") => true,
             _ => false,
+        }
+    }
+
+    /// how long an event may take before it is reported as still running ([8]): in probe schedules a thread is stopped while it
+    /// holds a lock, so other threads are expected to block on it
+    fn step_timeout(&self) -> Duration {
+        if self.cfg.points == "probe" { Duration::from_millis(300) } else { STEP_TIMEOUT }
+    }
+
+    /// waits until the sweeper is stopped at a schedule point, has finished its sweep, or the time is up
+    fn wait_sweeper_point(&mut self) -> J {
+        let deadline = std::time::Instant::now() + self.step_timeout();
+        loop {
+            if let Some(label) = self.ctl.at_point(Role::Sweeper) {
+                if !self.interesting(label, "") { self.ctl.step_point(Role::Sweeper); thread::sleep(Duration::from_micros(20)); continue; }
+                self.sweeper_at_point = true;
+                return J::A(vec![J::I(7), J::S(label.to_string())]);
+            }
+            if self.ctl.sweeps_done() > self.sweeps_before || matches!(self.ctl.role_state(Role::Sweeper), RoleState::Dead(_) | RoleState::Exited) {
+                self.sweeper_at_point = false;
+                self.ctl.set_stepping(Role::Sweeper, false);
+                return J::A(vec![]);
+            }
+            if std::time::Instant::now() >= deadline { self.sweeper_at_point = false; return J::A(vec![J::I(8)]); }
+            thread::sleep(Duration::from_micros(50));
         }
     }
 
@@ -372,7 +401,7 @@ impl Case {
             self.stepping_clients.retain(|t| *t != tid);
         }
         // while some client keeps a reference guard a call may legitimately block on that shard: do not wait long
-        let state = self.ctl.wait_client(tid, if self.guards_held > 0 { Duration::from_millis(250) } else { STEP_TIMEOUT });
+        let state = self.ctl.wait_client(tid, if self.guards_held > 0 { Duration::from_millis(250) } else { self.step_timeout() });
         match state {
             ClientState::Idle => {
                 let mut results = self.clients[tid].results.lock().unwrap();
@@ -405,7 +434,7 @@ impl Case {
     /// waits until the worker is back at its gate (command finished) or stopped at a point of interest; points inside
     /// the acknowledgement are stepped through
     fn wait_worker_point(&mut self) -> J {
-        let deadline = std::time::Instant::now() + STEP_TIMEOUT;
+        let deadline = std::time::Instant::now() + self.step_timeout();
         let mut drain_grace = false;
         loop {
             if let Some(label) = self.ctl.at_point(Role::Worker) {
@@ -503,11 +532,53 @@ impl Case {
             "workerp" => {
                 // one worker command in point-stepping mode: stops at the points inside the command (not inside done())
                 let state = self.ctl.role_state(Role::Worker);
-                if state != RoleState::AtGate || self.cache.verif_snapshot().queue_len == 0 || self.worker_at_point { skipped = true; }
+                // (a sweeper stopped at a probe point holds a lock the snapshot needs: go by the last snapshot then)
+                let queue_len = if self.sweeper_at_point && self.last_snap.is_some() { self.last_snap.as_ref().unwrap().queue_len } else { self.cache.verif_snapshot().queue_len };
+                if state != RoleState::AtGate || queue_len == 0 || self.worker_at_point { skipped = true; }
                 else {
                     self.ctl.set_stepping(Role::Worker, true);
                     self.ctl.grant(Role::Worker);
                     ret = self.wait_worker_point();
+                }
+            }
+            "sweepp" => {
+                // one sweep in point-stepping mode: stops in front of every eviction (holding the shard's lock)
+                match self.ctl.role_state(Role::Sweeper) {
+                    RoleState::Dead(_) | RoleState::Exited => skipped = true,
+                    _ if self.sweeper_at_point => skipped = true,
+                    _ => {
+                        self.sweeps_before = self.ctl.sweeps_done();
+                        self.ctl.set_stepping(Role::Sweeper, true);
+                        self.ctl.tick_async();
+                        ret = self.wait_sweeper_point();
+                    }
+                }
+            }
+            "runs" => {
+                if !self.sweeper_at_point { skipped = true; } else {
+                    self.ctl.step_point(Role::Sweeper);
+                    thread::sleep(Duration::from_micros(100));
+                    ret = self.wait_sweeper_point();
+                }
+            }
+            "sweep_join" => {
+                // waits for a sweep that was reported as still running
+                let deadline = std::time::Instant::now() + STEP_TIMEOUT;
+                while self.ctl.sweeps_done() <= self.sweeps_before && std::time::Instant::now() < deadline
+                    && !matches!(self.ctl.role_state(Role::Sweeper), RoleState::Dead(_) | RoleState::Exited) {
+                    if self.ctl.at_point(Role::Sweeper).is_some() { self.ctl.step_point(Role::Sweeper); }
+                    thread::sleep(Duration::from_micros(100));
+                }
+                if self.ctl.sweeps_done() > self.sweeps_before { self.ctl.set_stepping(Role::Sweeper, false); self.sweeper_at_point = false; }
+                else { ret = J::A(vec![J::I(8)]); }
+            }
+            "joinw" => {
+                // waits for a worker step that was reported as still running
+                let deadline = std::time::Instant::now() + STEP_TIMEOUT;
+                loop {
+                    ret = self.wait_worker_point();
+                    let still = matches!(&ret, J::A(v) if v.len() == 1 && matches!(v[0], J::I(8)));
+                    if !still || std::time::Instant::now() >= deadline { break; }
                 }
             }
             "runw" => {
@@ -540,6 +611,8 @@ impl Case {
                     }
                     // a call that was still blocked (on a shard kept locked by a reference guard) when we last looked
                     ClientState::Running => { ret = self.collect_client(tid); }
+                    // ... and has completed in the meantime without its result having been collected
+                    ClientState::Idle if self.clients[tid].results.lock().unwrap().len() > self.consumed[tid] => { ret = self.collect_client(tid); }
                     _ => skipped = true,
                 }
             }
@@ -581,7 +654,10 @@ impl Case {
             }
         }
         let consumer_gone = matches!(self.ctl.role_state(Role::Consumer), RoleState::Exited | RoleState::Dead(_));
-        let snap = self.cache.verif_snapshot();
+        // a thread stopped at a probe point holds a lock the snapshot needs: keep the previous snapshot meanwhile
+        let lock_held = self.cfg.points == "probe" && (self.worker_at_point || self.sweeper_at_point || self.ctl.at_point(Role::Worker).is_some() || self.ctl.at_point(Role::Sweeper).is_some());
+        let snap = if lock_held && self.last_snap.is_some() { self.last_snap.clone().unwrap() } else { self.cache.verif_snapshot() };
+        self.last_snap = Some(snap.clone());
         let acks: Vec<J> = self.acks.iter().map(|a| J::I(poll_ack(a).unwrap_or(0))).collect();
         let line = J::obj(vec![
             ("case", J::s(&self.name)),
@@ -599,6 +675,7 @@ impl Case {
                 ("consumer", role_str(&self.ctl.role_state(Role::Consumer))),
             ])),
             ("snap", snapshot_json(&snap, consumer_gone)),
+            ("stale_snap", J::Bool(lock_held)),
         ]);
         println!("{}", line.to_string());
         self.index += 1;
@@ -606,6 +683,9 @@ impl Case {
 
     fn finish(mut self) {
         // let everything run to completion so that threads can be joined
+        self.ctl.set_stepping(Role::Worker, false);
+        self.ctl.set_stepping(Role::Sweeper, false);
+        for tid in 0..self.cfg.clients { self.ctl.set_stepping(Role::Client(tid), false); }
         self.ctl.free_run(Role::Worker);
         self.ctl.free_run(Role::Consumer);
         for tid in 0..self.cfg.clients {
